@@ -635,3 +635,129 @@ def split_tuple_type(s):
     if cur.strip():
         parts.append(cur.strip())
     return parts
+
+
+# ---------------------------------------------------------------- inlining of local helper functions
+def _renumber(x, lbase, bmap):
+    """deep copy of a MIR JSON fragment with locals shifted by lbase (block ids are remapped by the caller)"""
+    if isinstance(x, dict):
+        d = {k: _renumber(v, lbase, bmap) for k, v in x.items()}
+        if isinstance(x.get("l"), int) and "f" not in x:  # a place / storage statement, not a span
+            d["l"] = x["l"] + lbase
+        return d
+    if isinstance(x, list):
+        if len(x) >= 2 and x[0] == "i" and isinstance(x[1], int):
+            return ["i", x[1] + lbase] + [_renumber(e, lbase, bmap) for e in x[2:]]
+        return [_renumber(e, lbase, bmap) for e in x]
+    return x
+
+
+def _retarget(t, bmap):
+    k = t["k"]
+    if k == "goto":
+        t["t"] = bmap(t["t"])
+    elif k == "switch":
+        t["vals"] = [[v[0], bmap(v[1])] for v in t["vals"]]
+        t["else"] = bmap(t["else"])
+    elif k in ("drop", "assert", "call"):
+        if t.get("t") is not None:
+            t["t"] = bmap(t["t"])
+        if isinstance(t.get("uw"), int):
+            t["uw"] = bmap(t["uw"])
+    return t
+
+
+def inline_fn(facts, path, should_inline, max_depth=3, max_blocks=400):
+    """A copy of the function `path` in which calls to local helper functions chosen by
+    `should_inline(callee_path)` are replaced by the helper's body (arguments become
+    assignments to the helper's parameter locals, `return` becomes an assignment to the
+    call's destination followed by a jump to the call's target).  Path rules evaluated on
+    the result do not depend on how the code is split into helper functions."""
+    import copy
+    fn = facts.fns[path]
+    m = copy.deepcopy(fn["mir"])
+    inlined = []
+    depth_of = {i: 0 for i in range(len(m["blocks"]))}
+    stack_of = {i: (path,) for i in range(len(m["blocks"]))}
+    work = list(range(len(m["blocks"])))
+    while work:
+        bi = work.pop(0)
+        blk = m["blocks"][bi]
+        t = blk["t"]
+        if t["k"] != "call" or blk.get("cleanup"):
+            continue
+        callee, c = callee_of(t)
+        if not callee or callee not in facts.fns or not facts.fns[callee].get("mir"):
+            continue
+        if c.get("res_kind") not in (None, "item") and not c.get("res"):
+            continue
+        if callee in stack_of[bi] or depth_of[bi] >= max_depth or not should_inline(callee):
+            continue
+        cm = facts.fns[callee]["mir"]
+        if len(m["blocks"]) + len(cm["blocks"]) > max_blocks or t.get("t") is None:
+            continue
+        lbase, bbase = len(m["locals"]), len(m["blocks"])
+        m["locals"].extend(copy.deepcopy(cm["locals"]))
+        for d in cm["dbg"]:
+            v = d.get("v")
+            if isinstance(v, dict) and "l" in v:
+                m["dbg"].append({"name": d["name"], "v": _renumber(v, lbase, None)})
+        ret_target = t["t"]
+        dest = t["dest"]
+        sp = t.get("sp")
+        # parameters
+        entry = []
+        for i, a in enumerate(t["args"]):
+            entry.append({"k": "assign", "lhs": {"l": lbase + 1 + i}, "rv": {"k": "use", "op": a}, "sp": sp})
+        for ci, cb in enumerate(cm["blocks"]):
+            nb = _renumber(cb, lbase, None)
+            nt = nb["t"]
+            if nt["k"] == "ret":
+                nb["s"] = nb["s"] + [{"k": "assign", "lhs": dest, "rv": {"k": "use", "op": {"mv": {"l": lbase}}}, "sp": sp}]
+                nb["t"] = {"k": "goto", "t": ret_target}
+            else:
+                _retarget(nt, lambda x: x + bbase)
+            m["blocks"].append(nb)
+            depth_of[bbase + ci] = depth_of[bi] + 1
+            stack_of[bbase + ci] = stack_of[bi] + (callee,)
+            work.append(bbase + ci)
+        blk["s"] = blk["s"] + entry
+        blk["t"] = {"k": "goto", "t": bbase, "inlined_call": callee, "sp": sp}
+        inlined.append(callee)
+    out = dict(fn)
+    out["mir"] = m
+    out["inlined"] = inlined
+    return out
+
+
+def path_count_range(b, start, targets, sites, dropped_edges=()):
+    """(min, max) number of blocks from `sites` visited on acyclic paths from `start` to any block in
+    `targets`; edges in dropped_edges (pairs) are ignored.  None if no path exists."""
+    sites, targets, dropped = set(sites), set(targets), set(dropped_edges)
+    best = {}
+    import sys
+    sys.setrecursionlimit(10000)
+
+    def go(x, onpath):
+        if x in targets:
+            c = 1 if x in sites else 0
+            return (c, c)
+        if x in best and not (onpath & best[x][2]):
+            return best[x][:2]
+        lo = hi = None
+        for s in b.succ[x]:
+            if (x, s) in dropped or s in onpath:
+                continue
+            r = go(s, onpath | {s})
+            if r is None:
+                continue
+            lo = r[0] if lo is None else min(lo, r[0])
+            hi = r[1] if hi is None else max(hi, r[1])
+        if lo is None:
+            return None
+        c = 1 if x in sites else 0
+        res = (lo + c, hi + c)
+        best[x] = (res[0], res[1], frozenset())
+        return res
+
+    return go(start, frozenset([start]))
